@@ -335,6 +335,8 @@ def lift(x):
         return lift(x[()])
     if isinstance(x, z3.ArithRef):
         return SV(x)
+    if isinstance(x, Fraction):
+        return SV(z3.Q(x.numerator, x.denominator), nn=x >= 0)
     raise ShimGap("lift " + str(type(x)))
 
 
@@ -480,6 +482,11 @@ def _sq_div(a, b):
     return SV(num, _or(x.nan, y.nan), d=_dmul(x.d, y.v), nn=True, dp=x.dp and y.dp)
 
 
+# rounding abstraction (opt-in per harness): when set, real/real division by a symbolic divisor returns whatever the hook
+# returns (e.g. a fresh symbol bounded only by what survives rounding) instead of the exact quotient
+DIV_HOOK = None
+
+
 class SV:
     """real number with a NaN flag, kept as a fraction v/d of polynomial z3 terms (d None = 1) so that
     equalities become inverse-free polynomial identities (DESIGN §2.2).  `sq` (optional SV) records that
@@ -551,6 +558,8 @@ class SV:
         o = lift(o)
         if isinstance(o, SC):
             return SC(self.v, z3.RealVal(0), self.nan, d=self.d, dp=self.dp) / o
+        if DIV_HOOK is not None and not z3.is_rational_value(z3.simplify(o.z)):
+            return DIV_HOOK(self, o)
         if Explorer.cur is not None:
             Explorer.cur.add_side(o.v != 0)
         num = self.v if o.d is None else self.v * o.d
@@ -729,8 +738,26 @@ class SV:
     def __float__(self):
         raise ShimGap("float() of a symbolic real (realisation)")
 
+    INT_FORK_LIMIT = 40
+
     def __int__(self):
-        raise ShimGap("int() of a symbolic real (realisation)")
+        """int() must return a concrete integer: fork over the possible truncations (bounded; beyond the bound the
+        realisation is a shim gap)"""
+        ex = Explorer.cur
+        if ex is None:
+            raise ShimGap("int() of a symbolic real (realisation)")
+        if z3.is_true(z3.simplify(self.nan)):
+            raise ValueError("cannot convert float NaN to integer")
+        x = self.z
+        if ex.decide(x >= 0):
+            for k in range(SV.INT_FORK_LIMIT):
+                if ex.decide(x < k + 1):
+                    return k
+        else:
+            for k in range(SV.INT_FORK_LIMIT):
+                if ex.decide(x > -(k + 1)):
+                    return -k
+        raise ShimGap("int() of a symbolic real beyond the fork limit")
 
     __index__ = __int__
 
